@@ -293,6 +293,16 @@ class Canon(ast.NodeTransformer):
             return ast.copy_location(lit, node)
         return node
 
+    def visit_DictComp(self, node):
+        # {k: v for k, v in PAIRS} is dict(PAIRS)
+        self.generic_visit(node)
+        if len(node.generators) == 1 and not node.generators[0].ifs and not node.generators[0].is_async:
+            t = node.generators[0].target
+            if isinstance(t, ast.Tuple) and len(t.elts) == 2 and all(isinstance(e, ast.Name) for e in t.elts) \
+                    and isinstance(node.key, ast.Name) and isinstance(node.value, ast.Name) and node.key.id == t.elts[0].id and node.value.id == t.elts[1].id and node.key.id != node.value.id:
+                return ast.copy_location(ast.Call(func=ast.Name(id="dict", ctx=ast.Load()), args=[node.generators[0].iter], keywords=[]), node)
+        return node
+
     def visit_ListComp(self, node):
         # [x for _ in range(n)] with x a name / constant not depending on the loop is [x] * n
         self.generic_visit(node)
